@@ -333,6 +333,34 @@ def rule_r2(rep, program: Program, et: ExcTypes):
 
 # ----------------------------------------------------------------------
 # R3
+def output_array_stores(f):
+    """(statement, row expression) for every subscript store in ``f`` whose target array derives from
+    the per-chain output parameters chain_stats / chain_traces (through .items()/.values() loops and
+    subscripts)."""
+    derived = {"chain_stats", "chain_traces"}
+    for _ in range(4):
+        for n in ast.walk(f.node):
+            if isinstance(n, (ast.For, ast.comprehension)):
+                if {x.id for x in ast.walk(n.iter) if isinstance(x, ast.Name)} & derived:
+                    derived |= {x.id for x in ast.walk(n.target) if isinstance(x, ast.Name)}
+            if isinstance(n, ast.Assign) and len(n.targets) == 1 and isinstance(n.targets[0], ast.Name) and isinstance(n.value, (ast.Subscript, ast.Call)) and {x.id for x in ast.walk(n.value) if isinstance(x, ast.Name)} & derived and not (isinstance(n.value, ast.Call) and norm(n.value.func) in ("_file_paths_to_memmaps",)):
+                derived.add(n.targets[0].id)
+    derived -= {"trans_key", "key"}
+    out = []
+    for n in ast.walk(f.node):
+        tg = n.targets if isinstance(n, ast.Assign) else [n.target] if isinstance(n, ast.AugAssign) else []
+        for t in tg:
+            if isinstance(t, ast.Subscript):
+                base = t.value
+                root = base
+                while isinstance(root, ast.Subscript):
+                    root = root.value
+                # a store two levels deep (array[row]) into something derived from the outputs
+                if isinstance(root, ast.Name) and root.id in derived and isinstance(base, ast.Subscript):
+                    out.append((n, t.slice))
+    return out
+
+
 def rule_r3(rep, program: Program):
     r = rep.rule("R3", "row index, store order, returned state, offset accumulation and n_trace_iter", floor=7)
     f = program.func_inlined("samplers", "_sample_chain", keep=SAMPLE_CHAIN_ANCHORS)
@@ -344,6 +372,7 @@ def rule_r3(rep, program: Program):
     loop = loops[0]
     idx_name = norm(loop.target.elts[0]) if isinstance(loop.target, ast.Tuple) else norm(loop.target)
     want = Rat.sym(idx_name) + Rat.sym("sampling_index_offset")
+    tstores_placeholder = []
     # stats store
     calls = [n for n in ast.walk(loop) if isinstance(n, ast.Call) and norm(n.func) == "_update_chain_stats"]
     if not calls:
@@ -353,6 +382,19 @@ def rule_r3(rep, program: Program):
         r.inst({"store": "stats", "index": repr(idx)})
         if not idx.equals(want):
             r.violate(PROP, f"_sample_chain:stats-index:{norm(c.args[0])}", f"statistics are written at row `{norm(c.args[0])}` instead of {idx_name} + sampling_index_offset", node=c, file=f.file)
+    # every other store into the per-chain output arrays made anywhere in _sample_chain (e.g. in the
+    # interrupt handler) addresses a row by the same index
+    for st, row in output_array_stores(f):
+        if any(st is x for x in tstores_placeholder):
+            continue
+        idx = None
+        try:
+            idx = eval_expr(row, {})
+        except AnalysisError:
+            pass
+        r.inst({"store": "output array", "statement": norm(st)[:60], "row": norm(row)})
+        if idx is None or not idx.equals(want):
+            r.violate(PROP, f"_sample_chain:output-store-index:{norm(row)[:40]}", f"`{norm(st)[:70]}` writes row `{norm(row)}` of a per-chain output array; rows are addressed by {idx_name} + sampling_index_offset - with a non-zero offset (a later recorded stage) this overwrites a row recorded by an earlier stage", node=st, file=f.file)
     ucs = program.func("samplers", "_update_chain_stats")
     stores = [n for n in ast.walk(ucs.node) if isinstance(n, ast.Assign) and isinstance(n.targets[0], ast.Subscript)]
     ok = any(norm(s.targets[0].slice) == ucs.params[0] and norm(s.value) == "val" for s in stores)
@@ -466,6 +508,15 @@ def rule_r4(rep, program: Program):
             r.violate(PROP, f"{fname}:fill:{norm(fill_m)}!={norm(fill_i)}", "initial fill value differs between in-memory and memory-mapped storage", node=b, file=f.file)
         if norm(dt_m) != norm(dt_i):
             r.violate(PROP, f"{fname}:dtype:{norm(dt_m)}!={norm(dt_i)}", "dtype differs between in-memory and memory-mapped storage", node=b, file=f.file)
+    # the arrays are allocated from what will be stored in them: the store loop lets the *last* trace
+    # function returning a key win, so the allocation must run for every (function, key) pair too
+    ft = program.func_inlined("samplers", "_init_traces", keep=STORAGE_ANCHORS)
+    for st in ast.walk(ft.node):
+        if isinstance(st, ast.Assign) and len(st.targets) == 1 and isinstance(st.targets[0], ast.Subscript) and norm(st.targets[0].value) == "traces":
+            conds = [(e, t) for e, t in execution_condition(ft.node, st, stop_at=(ast.FunctionDef,)) if "use_memmap" not in norm(e)]
+            r.inst({"function": "_init_traces", "allocation": norm(st.targets[0]), "conditions": [("" if t else "not ") + norm(e) for e, t in conds]})
+            if conds:
+                r.violate(PROP, f"_init_traces:conditional-allocation:{norm(conds[0][0])[:40]}", f"the trace array for a key is only allocated when {[('' if t else 'not ') + norm(e) for e, t in conds]}: when several trace functions return the same key the array keeps the dtype / shape of an earlier function while the values stored are those of the last one (silent casts)", node=st, file=ft.file)
     # one file per array: the file name is a function of every index of the array it backs
     prefixes = {}
     for fname in ("_init_stats", "_init_traces"):
